@@ -95,7 +95,7 @@ RIVER = [
     "data[5*k+4] == centre_y(nrows, yll, csz, row_of(ncols, idxcells[k])))",
 ]
 K.behavior("trace", "valid_cell(nrows, ncols, idxupstream)",
-           ["result == 0", "0 <= npoints[0] and npoints[0] <= nval and (npoints[0] >= 1 or nval <= 0)"] + [e.format(m="npoints[0]") for e in RIVER]
+           ["result == 0", "0 <= npoints[0] and (npoints[0] <= nval or nval < 0) and (npoints[0] >= 1 or nval <= 0)"] + [e.format(m="npoints[0]") for e in RIVER]
            # it stops at the first cell that drains nowhere, or when the buffer is full
            + ["implies(" + FDC_IS + " and npoints[0] >= 1 and npoints[0] < nval, down(nrows, ncols, flowdir[idxcells[npoints[0]-1]], idxcells[npoints[0]-1]) < 0)"],
            props=["C06"])
